@@ -1,5 +1,7 @@
 import Driver.Common
 import Model.Resource
+import Model.JwtAccessToken
+import Driver.C04
 namespace Driver.C10
 open Lean Driver Model.Resource
 
@@ -10,7 +12,26 @@ def decisionStr : Decision → String
   | .invalidToken => "invalid_token"
   | .insufficientScope => "insufficient_scope"
 
+def reqList (j : Json) (k : String) : Option (List (List Char)) :=
+  match j.getObjVal? k with
+  | .ok (.arr a) => some (a.toList.filterMap fun x => match x with | .str s => some (chars s) | _ => none)
+  | _ => none
+
+def handleJwt (j : Json) : Except String Json := do
+  let decoded ← if getBoolD j "decoded" false then do
+      let typ ← match j.getObjVal? "typ" with
+        | .ok v => Driver.C04.parseVal v
+        | .error _ => pure (Model.Claims.Val.atom .none)
+      let claims ← Driver.C04.parsePairs Driver.C04.parseVal (← getArr j "claims")
+      pure (some (typ, claims))
+    else pure none
+  let rq := (j.getObjVal? "req").toOption.getD (Json.mkObj [])
+  let r : Model.JwtAccessToken.Required := ⟨reqList rq "scopes", reqList rq "groups", reqList rq "roles", reqList rq "entitlements"⟩
+  let d := Model.JwtAccessToken.serve decoded (← getStr j "issuer") (← getStr j "rs") (← getInt j "now") r
+  pure (Json.mkObj [("decision", decisionStr d), ("status", status d)])
+
 def handle : Handler := fun j => do
+  if getBoolD j "jwt" false then handleJwt j else
   let types := (← getArr j "types").toList.filterMap fun x => match x with | .str s => some (chars s) | _ => none
   let toks ← (← getArr j "tokens").toList.mapM fun p => do
     let k ← (← p.getArrVal? 0).getStr?
